@@ -4,6 +4,7 @@ package main
 
 import (
 	"fmt"
+	"runtime"
 	"sync"
 	"sync/atomic"
 
@@ -275,6 +276,64 @@ func corpus(r *Rng) []Case {
 		func(sc func(e *engine, mk func(int, *question) *caller)) Case { return authCaseN(r, 1, 0, 0, sc) })
 	pairs([]string{"PValidate", "PRefresh", "PUserGroups"},
 		func(sc func(e *engine, mk func(int, *question) *caller)) Case { return proxyCaseN(r, 1, 0, 0, sc) })
+	// L: look-alike subjects. For every component of every coalesced method's subject — e-mail, group
+	// name, access / refresh token, allowed group — a question and a LOOK-ALIKE of it (other letter
+	// case, surrounding blanks, Unicode fold-equivalents) overlap within one wrapper object: they are
+	// different subjects, must be executed separately and answered separately; a third caller repeating
+	// the first question joins the first execution.
+	type variant struct {
+		svc  string
+		mk   func(x string) *question
+		base string
+	}
+	sessWith := func(ep string, set func(s *sess, x string)) func(string) *question {
+		return func(x string) *question {
+			s := base
+			set(&s, x)
+			return &question{endpoint: ep, s: &s, allowed: []string{"team-a"}}
+		}
+	}
+	vs := []variant{
+		{"auth", func(x string) *question {
+			return &question{endpoint: "AGroupMembership", email: "alice@x.io", groups: []string{x, "staff"}}
+		}, "admins"},
+		{"auth", func(x string) *question {
+			return &question{endpoint: "AGroupMembership", email: x, groups: []string{"admins"}}
+		}, "alice@x.io"},
+		{"auth", sessWith("AValidate", func(s *sess, x string) { s.access = x }), "tokens"},
+		{"auth", sessWith("ARefresh", func(s *sess, x string) { s.refresh = x }), "tokens"},
+		{"auth", sessWith("ARevoke", func(s *sess, x string) { s.refresh = x }), "tokens"},
+		{"auth", func(x string) *question { return &question{endpoint: "ARefreshAccessToken", token: x} }, "tokens"},
+		{"proxy", func(x string) *question {
+			return &question{endpoint: "PUserGroups", email: "alice@x.io", groups: []string{"staff", x}}
+		}, "admins"},
+		{"proxy", func(x string) *question {
+			return &question{endpoint: "PUserGroups", email: x, groups: []string{"admins"}}
+		}, "alice@x.io"},
+		{"proxy", sessWith("PValidate", func(s *sess, x string) { s.access = x }), "tokens"},
+		{"proxy", sessWith("PRefresh", func(s *sess, x string) { s.refresh = x }), "tokens"},
+		{"proxy", func(x string) *question {
+			s := base
+			return &question{endpoint: "PValidate", s: &s, allowed: []string{x}}
+		}, "admins"},
+	}
+	for _, v := range vs {
+		for _, alt := range lookalikes(v.base) {
+			v, alt := v, alt
+			sc := func(e *engine, mk func(int, *question) *caller) {
+				a, b, c := mk(1, v.mk(v.base)), mk(2, v.mk(alt)), mk(3, v.mk(v.base))
+				e.enter(a)
+				e.enter(b)
+				e.enter(c)
+				// drain answers each execution with its own generated answer
+			}
+			if v.svc == "auth" {
+				out = append(out, authCaseN(r, 1, 0, 0, sc))
+			} else {
+				out = append(out, proxyCaseN(r, 1, 0, 0, sc))
+			}
+		}
+	}
 	return out
 }
 
@@ -346,5 +405,66 @@ func storm(r *Rng) Case {
 	return Case{
 		Coq:  fmt.Sprintf("CStorm %s %s %s", Nat(int(maxOverlap)), List(execs), List(obs)),
 		JSON: map[string]interface{}{"level": "storm", "max_overlap": maxOverlap, "executions": int(execID), "callers": jobs},
+	}
+}
+
+// burst: up to 8 callers of ONE key spin on a barrier and enter Do at the same instant on different
+// CPUs (a page firing several requests with the same cookie); fn notes how many executions of the key
+// run at once and stays busy for a moment. Judged like a storm (CStorm).
+func burst(r *Rng) Case {
+	g := &singleflight.Group{}
+	n := 2 + r.Intn(7)
+	if p := runtime.GOMAXPROCS(0); n > p && p >= 2 {
+		n = p
+	}
+	var running, maxOverlap, execID, arrived int32
+	type rec struct {
+		ran      bool
+		val, cnt int
+	}
+	recs := make([]rec, n)
+	busy := 200 + r.Intn(3000)
+	var wg sync.WaitGroup
+	for i := 0; i < n; i++ {
+		wg.Add(1)
+		go func(i int) {
+			defer wg.Done()
+			atomic.AddInt32(&arrived, 1)
+			for atomic.LoadInt32(&arrived) < int32(n) { // spin barrier
+			}
+			ran := false
+			v, cnt, _ := g.Do("k", func() (interface{}, error) {
+				ran = true
+				c := atomic.AddInt32(&running, 1)
+				for {
+					m := atomic.LoadInt32(&maxOverlap)
+					if c <= m || atomic.CompareAndSwapInt32(&maxOverlap, m, c) {
+						break
+					}
+				}
+				id := int(atomic.AddInt32(&execID, 1))
+				for j := 0; j < busy; j++ { // stay in flight while the others arrive
+					atomic.LoadInt32(&arrived)
+				}
+				atomic.AddInt32(&running, -1)
+				return id, nil
+			})
+			val, _ := v.(int)
+			recs[i] = rec{ran: ran, val: val, cnt: cnt}
+		}(i)
+	}
+	wg.Wait()
+	var execs, obs []string
+	var jobs []map[string]interface{}
+	for id := 1; id <= int(execID); id++ {
+		execs = append(execs, Pair(fmt.Sprint(id), Str("k")))
+	}
+	for _, c := range recs {
+		obs = append(obs, fmt.Sprintf("mkSObs %s %s %d %s", Str("k"), Bool(c.ran), c.val, Nat(c.cnt)))
+		jobs = append(jobs, map[string]interface{}{"fn_ran": c.ran, "val": c.val, "count": c.cnt})
+	}
+	return Case{
+		Coq:  fmt.Sprintf("CStorm %s %s %s", Nat(int(maxOverlap)), List(execs), List(obs)),
+		JSON: map[string]interface{}{"level": "burst", "callers_released_together": n, "max_overlap": maxOverlap, "executions": int(execID), "callers": jobs},
 	}
 }
